@@ -644,10 +644,67 @@ def r6(ctx, r):
                  % (what, b[1] if b else "", b[2] if b else "", {k: v for k, v in (b[0] if b else {}).items()}), okdesc="resize: %s exact on %d states" % (what, npts))
 
 
+def r7(ctx, r):
+    """'…close and destruction across any number of producers and consumers … no data race': the destructor wakes the parked
+    callers, but a woken caller is still INSIDE wait(): it re-locks the mutex and re-reads the queue and the closed flag.  The
+    members may therefore be destroyed only after every parked caller has left — a waiter count maintained under the mutex
+    around every wait, and a destructor that waits for it to reach zero."""
+    fb, la = ctx.fb(), ctx.locks()
+    ms = _bq_methods(fb)
+    dt = [f for f in ms if f.kind == "dtor"]
+    if len(dt) != 1:
+        raise AnalysisBroken("~BlockingQueue: %d bodies" % len(dt))
+    d = dt[0]
+
+    def cv_waits(f):
+        return [e for e in f.stmts() if e.node.get("k") == "mcall" and e.node.get("callee", "").startswith("std::condition_variable") and last(e.node["callee"]) in common.CV_WAIT]
+    # which counter does the destructor wait for?
+    counter = None
+    for e in cv_waits(d):
+        args = [a for a in e.node.get("args", []) if not a.get("def")]
+        P = common._resolve_pred(fb, d, args[-1]) if args else None
+        if P is None:
+            continue
+        for x in P.nodes.values():
+            if x.get("k") == "member" and x["n"].startswith(BQ + "::") and x["n"] not in (BQ + "::_queue", BQ + "::_closed", BQ + "::_maxSize"):
+                counter = x["n"]
+    r.instance()
+    if not r.expect(counter is not None, d, None, "destroyed under woken callers", "~BlockingQueue closes the queue (waking every parked caller) and returns at once: the members are destroyed while the woken callers are still "
+                    "inside condition_variable::wait — re-locking _mutex, re-reading _queue and _closed — a use of destroyed objects (heap-use-after-free for a heap-allocated queue) and a data race",
+                    okdesc="destructor waits for the parked callers to leave"):
+        return
+    # every wait of every operation is bracketed by ++counter / --counter under the mutex
+    def touches(f, e, up):
+        n = e.node
+        ops = ("++", "pre++", "post++", "+=") if up else ("--", "pre--", "post--", "-=")
+        if n.get("k") in ("un", "bin", "opcall") and n.get("op") in ops and any(x.get("k") == "member" and x["n"] == counter for x in walk(n)):
+            return True
+        if not up and n.get("k") == "mcall":
+            for g in fb.by_name.get(n.get("callee"), []):
+                if g.ok and any(y.get("k") in ("un", "bin") and y.get("op") in ops and any(x.get("k") == "member" and x["n"] == counter for x in walk(y)) for y in g.nodes.values()):
+                    return True
+        return False
+    nw = 0
+    for f in ms:
+        if f is d or f.kind == "lambda":
+            continue
+        for w in cv_waits(f):
+            nw += 1
+            r.instance()
+            ups = [e for e in f.stmts() if touches(f, e, True) and elem_dominates(f, e, w) and la.holds(f, e, BQ + "::_mutex")]
+            downs = [e for e in f.stmts() if touches(f, e, False)]
+            esc = search(f, w, "exit", stop=lambda x: x in downs, eh=False)
+            r.expect(bool(ups) and esc is None, f, w, "wait not counted", "%s parks without announcing itself in %s (++ under _mutex before the wait, -- after it on every path): the destructor cannot know this caller is "
+                     "still inside wait()" % (short(f.name), short(counter)), okdesc="%s: wait bracketed by the waiter count" % short(f.name))
+    if nw < 6:
+        raise AnalysisBroken("BlockingQueue: only %d waits found" % nw)
+
+
 def run(ctx, ck):
     ck.run_rule("C10-R1", "BlockingQueue::_queue is accessed only under _mutex", "A1 lockset", lambda r: r1(ctx, r))
     ck.run_rule("C10-R2", "condition-variable discipline: no lost wake-up; every state change notifies", "A1 lockset + A2 must-pass", lambda r: r2(ctx, r))
     ck.run_rule("C10-R6", "DynamicRingBuffer::resize keeps the most recent items in order and publishes matching indices", "exact finite-domain evaluation of the index expressions", lambda r: r6(ctx, r))
+    ck.run_rule("C10-R7", "the queue is not destroyed while woken callers are still inside wait()", "protocol rule: waiter count bracketing every wait + destructor wait", lambda r: r7(ctx, r))
     ck.run_rule("C10-R3", "capacity bound, closed contract and FIFO end discipline on every path", "A5 predicate abstraction + A2", lambda r: r3(ctx, r))
     r4 = ck.rule("C10-R4", "SPSC index operations carry acquire/release by role", "A6 atomic-order table")
     r5 = ck.rule("C10-R5", "slot access is bounded by the full/empty test and precedes publication", "A2 dominance")
